@@ -27,7 +27,7 @@ func init() {
 			"Blind independence: after honest evaluation and finalization the token bytes are identical for every blind of the set and on a repeated run, and equal the reference authenticator (circl FullEvaluate / deterministic PSS verified by crypto/rsa). " +
 			"Interop: for each issuance of the shipped Rust vectors the request equals the slice of the vector's token_request cut by the harness's parser, the token from pat-go's issuer equals the vector's token, and the vector's token_response entry finalizes to the same token. " +
 			"distinct_nontrivial = distinct (type, key, input, blind class) cases",
-		Floors:      []string{"pure_requests", "blind_independent_token_sets", "rust_request_bytes_equal", "rust_token_equal", "rust_response_finalizes", "type1_cases", "type2_cases", "type5_cases", "invalid_blind_is_error"},
+		Floors:      []string{"pure_requests", "blind_independent_token_sets", "rust_request_bytes_equal", "rust_token_equal", "rust_response_finalizes", "type1_cases", "type2_cases", "type5_cases", "invalid_blind_is_error", "argument_buffers_reused_after_creation"},
 		Assumptions: []string{"the Rust vectors shipped in the repository are the independent implementation's output"},
 		Run:         runC11,
 	})
@@ -70,7 +70,8 @@ func runC11(c *core.Ctx) {
 						c.Eval(1)
 						d["blind"] = core.Hex(blind)
 						st, err := type1.NewBasicPrivateClient().CreateTokenRequestWithBlind(chal, nonce, kid, iss.TokenKey(), blind)
-						st2, err2 := type1.NewBasicPrivateClient().CreateTokenRequestWithBlind(clone(chal), clone(nonce), clone(kid), iss.TokenKey(), clone(blind))
+						a1, a2, a3, a4 := clone(chal), clone(nonce), clone(kid), clone(blind)
+						st2, err2 := type1.NewBasicPrivateClient().CreateTokenRequestWithBlind(a1, a2, a3, iss.TokenKey(), a4)
 						if (err == nil) != (err2 == nil) {
 							bad("type1:impure-error", "the same arguments gave an error once and a request once", d)
 							return
@@ -95,6 +96,13 @@ func runC11(c *core.Ctx) {
 							bad("type1:finalize-error", err.Error(), d)
 							return
 						}
+						// the caller reuses its argument buffers once the request exists: the request state must not depend on them
+						for _, b := range [][]byte{a1, a2, a3, a4} {
+							for k := range b {
+								b[k] ^= 0xa5
+							}
+						}
+						c.Class("argument_buffers_reused_after_creation")
 						// a second, independent evaluation (fresh proof randomness) must give the same token
 						resp2, _ := iss.Evaluate(st2.Request())
 						tok2, err := st2.FinalizeToken(resp2)
@@ -137,7 +145,8 @@ func runC11(c *core.Ctx) {
 						c.Eval(1)
 						d["blind"] = core.Hex(blind)
 						st, err := type2.NewBasicPublicClient().CreateTokenRequestWithBlind(chal, nonce, kid, iss.TokenKey(), blind, salt)
-						st2, err2 := type2.NewBasicPublicClient().CreateTokenRequestWithBlind(clone(chal), clone(nonce), clone(kid), iss.TokenKey(), clone(blind), clone(salt))
+						b1, b2, b3, b4, b5 := clone(chal), clone(nonce), clone(kid), clone(blind), clone(salt)
+						st2, err2 := type2.NewBasicPublicClient().CreateTokenRequestWithBlind(b1, b2, b3, iss.TokenKey(), b4, b5)
 						if err != nil || err2 != nil {
 							bad("type2:create-error", fmt.Sprintf("CreateTokenRequestWithBlind failed for a valid blind: %v %v", err, err2), d)
 							return
@@ -163,6 +172,20 @@ func runC11(c *core.Ctx) {
 							return
 						}
 						tokensSeen = append(tokensSeen, tok.Marshal())
+						// the second state was created from buffers the caller now reuses
+						for _, b := range [][]byte{b1, b2, b3, b4, b5} {
+							for k := range b {
+								b[k] ^= 0xa5
+							}
+						}
+						if resp2, err := iss.Evaluate(st2.Request()); err == nil {
+							tok2, err := st2.FinalizeToken(resp2)
+							if err != nil || !bytes.Equal(tok2.Marshal(), tok.Marshal()) {
+								bad("type2:token-depends-on-reused-argument-buffers", "after the caller reused its argument buffers the request finalizes to a different token (or fails)", d)
+								return
+							}
+						}
+						c.Class("argument_buffers_reused_after_creation")
 						c.Distinctf("t2:%d:%d:%d", ki, mi, bi%8)
 					}
 					for _, t := range tokensSeen[1:] {
